@@ -100,7 +100,7 @@ import BqVerif.Generated.Workflows
 open BqVerif.Pipeline BqVerif.Generated.Workflows
 def why (w : WF) : String :=
   let a := w.final
-  s!"{w.name} c02={c02Check w} structural={structural a} c01={c01Check w} c03={c03Check w} f2={a.f2} fMany={a.fMany} fSQ={a.fSQ} blocks={a.blocks} uncoupled={a.uncoupled} narrow={a.narrow} noModel={a.noModel} hidden={a.hidden} circBad={a.circBad} measPending={a.measPending} measHazard={a.measHazard}"
+  s!"{w.name} c02={c02Check w} structural={structural a} c01={c01Check w} c03={c03Check w} noRaise={noRaise w} f2={a.f2} fMany={a.fMany} fSQ={a.fSQ} blocks={a.blocks} uncoupled={a.uncoupled} narrow={a.narrow} noModel={a.noModel} hidden={a.hidden} circBad={a.circBad} measPending={a.measPending} measHazard={a.measHazard}"
 #eval do
   for (w : WF) in workflows do
     if !(allCheck w) then IO.println ("FAILING " ++ why w)
@@ -446,11 +446,11 @@ def jobs_for(seed: int, tier: str) -> list[dict]:
                     'npairs': rng.randint(1, 2 ** w)}],
                   {'n': w, 'shape': 'a2a', 'gates': 'cx-u3'},
                   rng.choice([1, 2]))
-    # --- last: an input whose compilation raises in the real code (known finding); it
-    #     takes the attached runtime down, so nothing may follow it
+    # --- qutrit circuit with a single-qudit gate that is not native (GeneralSQDecomposition
+    #     raised on qutrit blocks before the fix d7fbe96)
     J('probe-qutrit-sq', 'circuit',
       [{'t': 'qutrit-sq'}], {'n': 2, 'shape': 'a2a', 'gates': 'qutrit',
-                             'radix': 3}, 1, expect='raises')
+                             'radix': 3}, 1)
     return jobs
 
 
@@ -672,7 +672,15 @@ def run_batch(ck: Check, jobs: list[dict], workers: int, log) -> list[dict]:
                         # fixed ports, or this job takes the server down.  Restart and retry;
                         # a job that loses the runtime three times is set aside.
                         attempts[j['tag']] = attempts.get(j['tag'], 0) + 1
-                        if attempts[j['tag']] >= 3 or (
+                        if attempts[j['tag']] == 1:
+                            # cheap diagnosis first: does a pass of this job raise?
+                            res['in_process'] = diagnose_lost(res, log)
+                        if res.get('in_process'):
+                            res['exc'] = 'RUNTIME-LOST: ' + res['exc']
+                            res['lost'] = True
+                            results.append(res)
+                            todo.pop(0)
+                        elif attempts[j['tag']] >= 3 or (
                                 attempts[j['tag']] >= 2
                                 and j['expect'] == 'raises'):
                             res['exc'] = 'RUNTIME-LOST: ' + res['exc']
@@ -692,7 +700,7 @@ def run_batch(ck: Check, jobs: list[dict], workers: int, log) -> list[dict]:
     log(f'batch: {len(results)} compile() calls in {time.time() - t_all:.0f}s,'
         f' {restarts} runtime restarts')
     for res in results:
-        if res.get('lost'):
+        if res.get('lost') and 'in_process' not in res:
             res['in_process'] = diagnose_lost(res, log)
     return results
 
@@ -790,6 +798,15 @@ def oracle_c02(ck: Check, res: dict, out, idx: int, emit):
     j = res['job']
     c = out[0]
     bad = three_clauses(model, c)
+    if bad and not any(g.num_qudits == 1 for g in model.gate_set) and all(
+            b.startswith('foreign gate') for b in bad) and all(
+            op.num_qudits == 1 for op in c if op.gate not in model.gate_set
+            and not is_placeholder(op.gate)):
+        # hypothesis H_del (Hyps.delOK) is not met on this run: the model has no single-qudit
+        # gate, the workflow "attempts to remove single-qudit gates" and warns that the gate
+        # set may not be universal.  Recorded, not a verdict (DESIGN: C02, H_del).
+        ck.bump('hypothesis_unmet', 'H_del')
+        bad = []
     if bad:
         kinds = sorted({b.split()[0] for b in bad})
         cls = '+'.join(kinds)
@@ -1462,6 +1479,108 @@ def targeted_search(ck: Check, failing: list[str], log) -> list[dict]:
     return run_batch(ck, jobs, 4, log)
 
 
+def malformed_stream(ck: Check, pid: str):
+    """compile()'s argument guards against their transcription (translate/workflows.py:
+    outside_compile_domain, which decides which configurations are serialised) and against the
+    documented error classes.  No runtime: the compiler handed in is a stub that records whether
+    compile() got as far as compiling."""
+    from bqskit import compile as bq_compile
+    from bqskit.compiler.compiler import Compiler
+    from bqskit.compiler.machine import MachineModel
+    from bqskit.ir.circuit import Circuit
+    from bqskit.qis.unitary.unitarymatrix import UnitaryMatrix
+    from translate.workflows import outside_compile_domain
+    G = _gates()
+
+    class Reached(Exception):
+        pass
+
+    stub = object.__new__(Compiler)
+    stub.p = None
+    stub.conn = None
+
+    def _c(*a, **k):
+        raise Reached()
+    stub.compile = _c
+    stub.submit = _c
+    stub.close = lambda: None
+    c2 = Circuit(2)
+    c2.append_gate(G.CNOTGate(), (0, 1))
+    c4 = Circuit(4)
+    c4.append_gate(G.CCXGate(), (0, 1, 2))
+    c4.append_gate(G.CNOTGate(), (2, 3))
+    mixed = Circuit(2, [2, 3])
+    q3 = Circuit(2, [3, 3])
+    cases = [
+        ('ok-circuit', c2, MachineModel(2), {}, 'accept'),
+        ('ok-wider', c2, MachineModel(4), {}, 'accept'),
+        ('level-0', c2, MachineModel(2), {'optimization_level': 0}, 'ValueError'),
+        ('level-5', c2, MachineModel(2), {'optimization_level': 5}, 'ValueError'),
+        ('ms-1', c2, MachineModel(2), {'max_synthesis_size': 1}, 'ValueError'),
+        ('ms-float', c2, MachineModel(2), {'max_synthesis_size': 2.5}, 'TypeError'),
+        ('eps-neg', c2, MachineModel(2), {'synthesis_epsilon': -1e-3}, 'ValueError'),
+        ('eps-2', c2, MachineModel(2), {'synthesis_epsilon': 2.0}, 'ValueError'),
+        ('thr-2', c2, MachineModel(2), {'error_threshold': 2.0}, 'ValueError'),
+        ('sim-small', c2, MachineModel(2),
+         {'error_sim_size': 2, 'max_synthesis_size': 3}, 'ValueError'),
+        ('seed-str', c2, MachineModel(2), {'seed': 'x'}, 'TypeError'),
+        ('mapping-int', c2, MachineModel(2), {'with_mapping': 1}, 'TypeError'),
+        ('model-small', c4, MachineModel(3), {}, 'ValueError'),
+        ('model-radix', q3, MachineModel(2), {}, 'ValueError'),
+        ('mixed-radix', mixed, None, {}, 'ValueError'),
+        ('no-entangler', c2, MachineModel(2, gate_set={G.U3Gate()}), {},
+         'ValueError'),
+        ('native-too-big', c2, MachineModel(2, gate_set={G.CCXGate()}),
+         {'max_synthesis_size': 3}, 'ValueError'),
+        ('ms-below-native', c4,
+         MachineModel(4, gate_set={G.CCXGate(), G.CNOTGate(), G.U3Gate()}),
+         {'max_synthesis_size': 2}, 'ValueError'),
+        ('gate-over-ms', c4, MachineModel(4), {'max_synthesis_size': 2},
+         'ValueError'),
+        ('gate-at-ms', c4, MachineModel(4), {'max_synthesis_size': 3}, 'accept'),
+        ('unitary-over-ms', UnitaryMatrix.identity(8), MachineModel(3),
+         {'max_synthesis_size': 2}, 'ValueError'),
+        ('empty-list', [], MachineModel(2), {}, 'ValueError'),
+        ('not-an-input', 'circuit', MachineModel(2), {}, 'TypeError'),
+        ('model-not-model', c2, 'model', {}, 'TypeError'),
+    ]
+    for name, inp, model, kw, want in cases:
+        try:
+            with warnings.catch_warnings():
+                warnings.simplefilter('ignore')
+                bq_compile(inp, model, compiler=stub, **kw)
+            got = 'returned'
+        except Reached:
+            got = 'accept'
+        except TypeError:
+            got = 'TypeError'
+        except ValueError:
+            got = 'ValueError'
+        except Exception as e:
+            got = 'other:' + type(e).__name__
+        ck.bump('malformed_stream', f'{want}/{got}')
+        ck.count(('malformed', name))
+        if got != want and pid == 'C01':
+            ck.violation(f'c01-compile-guard:{name}:{want}-vs-{got}',
+                         f'compile() argument check {name}: expected {want}, '
+                         f'got {got}', {'case': name, 'kwargs': str(kw)},
+                         found_input=False)
+        # transcription used by the translator to restrict the grid
+        if isinstance(model, MachineModel) and want in ('accept', 'ValueError') \
+                and name in ('ok-circuit', 'ok-wider', 'model-small',
+                             'no-entangler', 'native-too-big',
+                             'ms-below-native', 'gate-at-ms'):
+            ms = kw.get('max_synthesis_size', 3)
+            mine = 'ValueError' if outside_compile_domain(
+                inp.num_qudits, model, ms) else 'accept'
+            ck.bump('guard_transcription', f'{got}/{mine}')
+            if mine != got and pid == 'C01':
+                ck.violation(
+                    f'c01-guard-transcription-differs:{name}',
+                    f'outside_compile_domain says {mine}, compile() {got}',
+                    {'case': name}, found_input=False)
+
+
 ASSUMPTIONS = [
     'contracts of the leaf passes (Model/Pipeline.lean: post, feEnter/feExit, wrapExit) are '
     'assumed, not proved from the pass implementations; they are the hypothesis `Contracts` of '
@@ -1506,11 +1625,25 @@ def run_check(ck: Check, pid: str):
         failing = failing_workflows()
         log(f'{len(failing)} regenerated workflows fail their postcondition')
         extra = targeted_search(ck, failing, log) if failing else []
-    # 3. end-to-end batch (A)
-    results = get_batch(ck, log)
+    # 3. end-to-end batch (A)   (--replay file: only the job of that replay file)
+    rjob = None
+    if ck.replay_path:
+        import json
+        try:
+            rjob = json.loads(Path(ck.replay_path).read_text())['replay'].get('job')
+        except Exception as e:
+            raise InfraError(f'cannot read replay file {ck.replay_path}: {e}')
+    if rjob:
+        log(f"replaying job {rjob['tag']}")
+        results = run_batch(ck, [rjob], 4, log)
+        for x in results:
+            x['workers'] = 4
+    else:
+        results = get_batch(ck, log)
     # 4. oracles
     evaluate(ck, results + extra, pid, log)
     probe_qutrit_sq(ck, pid)
+    malformed_stream(ck, pid)
     correspondence(ck, results + extra, pid, set(summary['names']), log)
     ck.coverage['rule'] = (
         'one case = one (input, model, level, max_synthesis_size, error_threshold, seed) '
@@ -1524,7 +1657,9 @@ def run_check(ck: Check, pid: str):
     if not proved:
         mine = {'C01': 'c01=false', 'C02': 'c02=false', 'C03': 'c03=false'}
         rel = [f for f in failing
-               if mine[pid] in f or (pid == 'C02' and 'structural=false' in f)]
+               if mine[pid] in f or (pid == 'C02' and 'structural=false' in f)
+               or ('noRaise=false' in f and (
+                   (pid == 'C01') == f.startswith('circuit/')) and pid != 'C02')]
         found = bool(ck.violations)
         ck.coverage['failing_workflows'] = rel[:20] or failing[:20]
         if failing and not rel:
